@@ -1765,8 +1765,9 @@ class FileBuilder:
             if self._try_to_reuse_cached_file():
                 return operation.return_value
 
-            if (os.path.isfile(filename) and
-                    self._backups.back_up_and_remove(filename)):
+            if not os.path.isfile(filename):
+                self._backups.record_absent(filename)
+            elif self._backups.back_up_and_remove(filename):
                 logger.info(
                     'Moved {:s} to a temporary directory, in preparation for '
                     'rebuilding the file'.format(filename))
@@ -1944,7 +1945,11 @@ class FileBuilder:
             dirs_to_remove.discard(os.path.normcase(dir_))
 
         for filename in self._new_cache.created_files():
-            if not self._old_cache.created_file(filename):
+            # Output files of the previous build normally stay, because
+            # restore_all() restores their contents. But if such a file was
+            # missing and this build recreated it, there is nothing to restore.
+            if (not self._old_cache.created_file(filename) or
+                    self._backups.was_absent(filename)):
                 FileBuilder._try_to_remove_file(filename)
         FileBuilder._remove_empty_dirs(list(dirs_to_remove))
 
